@@ -510,12 +510,23 @@ class Unit:
             pretxt = re.sub(r"(?ms)^broadcast use\s+([^;]*);[ \t]*\n", _bu, pretxt)
             if names:
                 pretxt += "\nbroadcast use {%s};\n" % ", ".join(names)
+            base = g.cur() + 1
             lo, hi = g.emit("// ---- prelude (shims, spec functions, assumed contracts) ----\n" + pretxt)
             g.region(lo, hi, kind="prelude")
+            # proof/exec fns of the prelude that carry an `//@ obligation` marker are obligations too
+            self._index_lemmas(pretxt, base, g, only_marked=True)
         g.emit("// ---- extracted from /repo (mechanical; see unit.toml) ----")
         want_canary = self.cfg.get("canaries", True)
         for it in self.items:
             try:
+                if it.kind == "closure":
+                    # R19: closure lifted to a named function with the declared signature; body verbatim
+                    sig = it.opts.get("sig")
+                    if not sig:
+                        raise UnitError("closure item %s needs `sig`" % it.name)
+                    it.text = sig.strip() + " " + it.text
+                    it.kind = "fn"
+                    self._count("R19", 1)
                 t = self.rewrite(it)
                 it.final = t
                 it.sha = hashlib.sha256(it.text.encode()).hexdigest()
@@ -523,11 +534,11 @@ class Unit:
                     c = self.contracts.get(it.name)
                     twins = [False]
                     if want_canary and c is not None and "no_canary" not in c.flags and not it.opts.get("no_canary") \
-                            and not (it.impl_header and re.search(r"\bfor\b", L.mask(it.impl_header))):
+                            and not (it.opts.get("impl_header", it.impl_header) and re.search(r"\bfor\b", L.mask(it.opts.get("impl_header", it.impl_header)))):
                         twins.append(True)
                     for canary in twins:
                         if it.kind == "method":
-                            hdr = it.impl_header
+                            hdr = it.opts.get("impl_header", it.impl_header)
                             hdr, n = R.r1_strip_attrs_comments(hdr)
                             for sub in self.cfg.get("subst", []):
                                 if "only" in sub:
@@ -572,7 +583,7 @@ class Unit:
         self.gen = g
         return g
 
-    def _index_lemmas(self, txt, base, g):
+    def _index_lemmas(self, txt, base, g, only_marked=False):
         m = L.mask(txt)
         pend_props = None
         pend_name = None
@@ -608,11 +619,15 @@ class Unit:
             ln = txt.count("\n", 0, pos)
             props = None
             name = k.group(2)
-            for back in range(ln, max(-1, ln - 4), -1):
+            marked = False
+            for back in range(ln, max(-1, ln - 6), -1):
                 if back in markers:
                     nm, pp = markers[back]
                     props = pp
+                    marked = True
                     break
+            if only_marked and not marked:
+                continue
             g.region(lo, hi, kind="lemma", fn=name, props=props or self.props)
             self.obligations.append(dict(id="%s::lemma.%s" % (self.name, name), fn=name, kind="lemma", label=name,
                                          props=props or self.props, lo=lo, hi=hi, text="lemma " + name))
